@@ -118,8 +118,8 @@ class Facts:
         d = t["discr"]
         out = []
         info = F.switch_info(fn, b)
-        if d.get("ty") == "bool" and d["k"] in ("copy", "move") and not d["pl"]["p"]:
-            v = env.get(d["pl"]["l"])
+        if d.get("ty") == "bool" and d["k"] in ("copy", "move"):
+            v = env.get(d["pl"]["l"]) if not d["pl"]["p"] else self._sym_of_operand(d, env)
             if v is None:
                 key = self._atom("local:%d" % d["pl"]["l"], kind="local", local=d["pl"]["l"])
                 v = ("atom", key, True)
